@@ -1,9 +1,10 @@
 From Coq Require Import List NArith Bool Arith Lia.
-From Baize Require Import Lib.Wire Lib.Order C01.Model C01.Spec.
+From Baize Require Import Lib.Wire Lib.Order Lib.Utf8 C01.Model C01.Spec C01.Utf8Proofs.
 Import ListNotations.
 
-(* C01 — proof of [decode_headers_statement]: a rendered header block parses back to
-   the event it stands for, and satisfies [hdr_ok]. *)
+(* C01 — proof of [decode_headers_text_statement] (names, filenames and header values as text in the
+   request's charset) and of its ASCII instance [decode_headers_statement]: a rendered header block
+   parses back to the event it stands for, and satisfies [hdr_ok]. *)
 
 (* ---------- character classes ---------- *)
 
@@ -56,23 +57,55 @@ Proof.
   destruct (N.eqb_spec c 9); [lia|]. reflexivity.
 Qed.
 
-Lemma prc_not_cr c : prc c -> N.eqb c CR = false.
-Proof. unfold prc, CR. intros H. apply N.eqb_neq. lia. Qed.
-Lemma prc_not_lf c : prc c -> N.eqb c LF = false.
-Proof. unfold prc, LF. intros H. apply N.eqb_neq. lia. Qed.
-Lemma prc_not_cr' c : prc c -> N.eqb CR c = false.
-Proof. unfold prc, CR. intros H. apply N.eqb_neq. lia. Qed.
-Lemma prc_not_lf' c : prc c -> N.eqb LF c = false.
-Proof. unfold prc, LF. intros H. apply N.eqb_neq. lia. Qed.
+(* a byte, or a character, that is not a line break *)
+Definition ncl (c : N) : Prop := c <> CR /\ c <> LF.
+(* a byte that is ASCII / that belongs to a multi-byte sequence *)
+Definition asc (c : N) : Prop := (c < 128)%N.
+
+Lemma prc_ncl c : prc c -> ncl c.
+Proof. unfold prc, ncl, CR, LF. lia. Qed.
+Lemma visc_ncl c : visc c -> ncl c.
+Proof. intros H. apply prc_ncl, visc_prc, H. Qed.
+Lemma high_ncl c : (128 <= c)%N -> ncl c.
+Proof. unfold ncl, CR, LF. lia. Qed.
+Lemma prc_asc c : prc c -> asc c.
+Proof. unfold prc, asc. lia. Qed.
+
+Lemma ncl_not_cr c : ncl c -> N.eqb c CR = false.
+Proof. intros [H _]. apply N.eqb_neq. exact H. Qed.
+Lemma ncl_not_lf c : ncl c -> N.eqb c LF = false.
+Proof. intros [_ H]. apply N.eqb_neq. exact H. Qed.
+Lemma ncl_not_cr' c : ncl c -> N.eqb CR c = false.
+Proof. intros [H _]. apply N.eqb_neq. congruence. Qed.
+Lemma ncl_not_lf' c : ncl c -> N.eqb LF c = false.
+Proof. intros [_ H]. apply N.eqb_neq. congruence. Qed.
+
+Lemma is_bspace_high c : (128 <= c)%N -> is_bspace c = false.
+Proof.
+  unfold is_bspace. intros H.
+  destruct (N.eqb_spec c 32); [lia|].
+  destruct (N.leb_spec c 13); [lia|].
+  rewrite andb_false_r. reflexivity.
+Qed.
+
+(* what bytes.strip() removes, str.strip() removes as well *)
+Lemma is_bspace_uspace c : is_uspace c = false -> is_bspace c = false.
+Proof.
+  unfold is_uspace, is_bspace. intros H.
+  apply orb_false_iff in H. destruct H as [H _]. repeat (apply orb_false_iff in H; destruct H as [H ?]).
+  apply orb_false_iff. split; [|exact H].
+  match goal with H1 : (28 <=? c)%N && (c <=? 32)%N = false |- _ => rename H1 into H28 end.
+  destruct (N.eqb_spec c 32) as [->|]; [discriminate H28|reflexivity].
+Qed.
 
 (* ---------- lines ---------- *)
 
-(* a non-empty line of printable characters whose first character is visible *)
+(* a non-empty line without line break whose first character is visible ASCII *)
 Definition gl (l : bytes) : Prop :=
-  match l with c :: r => visc c /\ Forall prc r | [] => False end.
+  match l with c :: r => visc c /\ Forall ncl r | [] => False end.
 
-Lemma gl_pr l : gl l -> Forall prc l.
-Proof. destruct l as [|c r]; cbn [gl]; [tauto|]. intros [H1 H2]. constructor; auto using visc_prc. Qed.
+Lemma gl_pr l : gl l -> Forall ncl l.
+Proof. destruct l as [|c r]; cbn [gl]; [tauto|]. intros [H1 H2]. constructor; auto using visc_ncl. Qed.
 
 Definition fm (ls : list bytes) : bytes := flat_map (fun l => CRLF ++ l) ls.
 
@@ -80,12 +113,12 @@ Lemma fm_cons l ls : fm (l :: ls) = CR :: LF :: l ++ fm ls.
 Proof. reflexivity. Qed.
 
 (* (a) no continuation lines *)
-Lemma uc_pr l rest : Forall prc l ->
+Lemma uc_pr l rest : Forall ncl l ->
   unfold_continuations (l ++ rest) = l ++ unfold_continuations rest.
 Proof.
   induction 1 as [|c l Hc Hl IH]; [reflexivity|].
   cbn [app unfold_continuations].
-  rewrite (prc_not_cr c Hc), (prc_not_lf c Hc), IH. reflexivity.
+  rewrite (ncl_not_cr c Hc), (ncl_not_lf c Hc), IH. reflexivity.
 Qed.
 
 Lemma uc_crlf c rest : visc c ->
@@ -109,12 +142,12 @@ Proof.
 Qed.
 
 (* (b) splitlines *)
-Lemma sl_pr l rest : Forall prc l -> forall cur,
+Lemma sl_pr l rest : Forall ncl l -> forall cur,
   splitlines_aux (l ++ rest) cur = splitlines_aux rest (rev l ++ cur).
 Proof.
   induction 1 as [|c l Hc Hl IH]; intros cur; [reflexivity|].
   cbn [app splitlines_aux rev].
-  rewrite (prc_not_cr c Hc), (prc_not_lf c Hc), IH, <- app_assoc. reflexivity.
+  rewrite (ncl_not_cr c Hc), (ncl_not_lf c Hc), IH, <- app_assoc. reflexivity.
 Qed.
 
 Lemma sl_fm ls : Forall gl ls -> forall cur, cur <> [] ->
@@ -139,31 +172,31 @@ Proof.
 Qed.
 
 (* (c) no blank line *)
-Lemma bl_head c r : prc c -> blank_len (c :: r) = None.
+Lemma bl_head c r : ncl c -> blank_len (c :: r) = None.
 Proof.
   intros Hc. unfold blank_len. cbn [starts_with].
-  rewrite (prc_not_cr' c Hc), (prc_not_lf' c Hc). reflexivity.
+  rewrite (ncl_not_cr' c Hc), (ncl_not_lf' c Hc). reflexivity.
 Qed.
 
 Lemma search_cons {A} (m : bytes -> option A) c r i :
   m (c :: r) = None -> search m (c :: r) i = search m r (S i).
 Proof. intros H. cbn [search]. rewrite H. reflexivity. Qed.
 
-Lemma nb_pr l rest : Forall prc l -> (forall i, search blank_len rest i = None) ->
+Lemma nb_pr l rest : Forall ncl l -> (forall i, search blank_len rest i = None) ->
   forall i, search blank_len (l ++ rest) i = None.
 Proof.
   intros Hl Hrest. induction Hl as [|c l Hc Hl IH]; intros i; [apply Hrest|].
   cbn [app search]. rewrite bl_head by exact Hc. apply IH.
 Qed.
 
-Lemma nb_crlf c r : prc c -> (forall i, search blank_len (c :: r) i = None) ->
+Lemma nb_crlf c r : ncl c -> (forall i, search blank_len (c :: r) i = None) ->
   forall i, search blank_len (CR :: LF :: c :: r) i = None.
 Proof.
   intros Hc H i.
   assert (E1 : blank_len (CR :: LF :: c :: r) = None).
-  { unfold blank_len. cbn [starts_with]. rewrite (prc_not_cr' c Hc). reflexivity. }
+  { unfold blank_len. cbn [starts_with]. rewrite (ncl_not_cr' c Hc). reflexivity. }
   assert (E2 : blank_len (LF :: c :: r) = None).
-  { unfold blank_len. cbn [starts_with]. rewrite (prc_not_lf' c Hc). reflexivity. }
+  { unfold blank_len. cbn [starts_with]. rewrite (ncl_not_lf' c Hc). reflexivity. }
   cbn [search]. rewrite E1, E2. apply H.
 Qed.
 
@@ -171,9 +204,9 @@ Lemma nb_fm ls : Forall gl ls -> forall i, search blank_len (fm ls ++ [CR; LF; C
 Proof.
   induction 1 as [|l ls Hl Hls IH]; intros i; [reflexivity|].
   rewrite fm_cons. destruct l as [|c r]; [destruct Hl|].
-  cbn [app]. rewrite <- app_assoc. destruct Hl as [Hc Hr]. apply nb_crlf; [apply visc_prc; exact Hc|].
+  cbn [app]. rewrite <- app_assoc. destruct Hl as [Hc Hr]. apply nb_crlf; [apply visc_ncl; exact Hc|].
   intros j. change (c :: r ++ fm ls ++ [CR; LF; CR]) with ((c :: r) ++ fm ls ++ [CR; LF; CR]).
-  apply nb_pr; [constructor; auto using visc_prc|exact IH].
+  apply nb_pr; [constructor; auto using visc_ncl|exact IH].
 Qed.
 
 Lemma no_blank_joined l0 ls : gl l0 -> Forall gl ls ->
@@ -183,9 +216,9 @@ Proof.
   assert (E : search blank_len (LF :: (l0 ++ fm ls) ++ [CR; LF; CR]) 0 = None).
   { rewrite <- app_assoc. destruct l0 as [|c r]; [destruct H0|]. destruct H0 as [Hc Hr].
     assert (E2 : blank_len (LF :: (c :: r) ++ fm ls ++ [CR; LF; CR]) = None).
-    { unfold blank_len. cbn [starts_with app]. rewrite (prc_not_lf' c (visc_prc c Hc)). reflexivity. }
+    { unfold blank_len. cbn [starts_with app]. rewrite (ncl_not_lf' c (visc_ncl c Hc)). reflexivity. }
     rewrite search_cons by exact E2.
-    apply nb_pr; [constructor; auto using visc_prc|apply nb_fm; exact Hls]. }
+    apply nb_pr; [constructor; auto using visc_ncl|apply nb_fm; exact Hls]. }
   rewrite E. reflexivity.
 Qed.
 
@@ -215,22 +248,77 @@ Proof.
   - rewrite E2, rev_unit. exact Hz.
 Qed.
 
-(* ---------- decoding ASCII ---------- *)
+(* ---------- encoding and decoding text ---------- *)
 
-Lemma utf8_ascii : forall fuel s, length s <= fuel -> Forall prc s -> utf8_decode fuel s = Some s.
+Lemma forallb_lt256_asc s : Forall asc s -> forallb (fun c => N.ltb c 256) s = true.
 Proof.
-  induction fuel as [|k IH]; intros s Hlen Hs.
-  - destruct s; [reflexivity|cbn [length] in Hlen; lia].
-  - destruct s as [|a r]; [reflexivity|].
-    inversion Hs as [|? ? Ha Hr]; subst. cbn [utf8_decode].
-    assert (E : N.ltb a 128 = true) by (apply N.ltb_lt; unfold prc in Ha; lia).
-    rewrite E, IH; [reflexivity| cbn [length] in Hlen; lia | exact Hr].
+  induction 1 as [|c r Hc Hr IH]; [reflexivity|]. cbn [forallb]. rewrite IH, andb_true_r.
+  apply N.ltb_lt. unfold asc in Hc. lia.
 Qed.
 
-Lemma safe_decode_ascii utf8 s : Forall prc s -> safe_decode utf8 s = s.
+Lemma enc_ascii utf8 s : Forall asc s -> encode_text utf8 s = Some s.
 Proof.
-  intros H. unfold safe_decode. destruct utf8; [|reflexivity].
-  rewrite utf8_ascii; auto.
+  intros H. unfold encode_text. destruct utf8; [apply utf8_ascii_id; exact H|].
+  rewrite forallb_lt256_asc by exact H. reflexivity.
+Qed.
+
+Lemma enc_nil utf8 b : encode_text utf8 [] = Some b -> b = [].
+Proof. destruct utf8; cbn; intros H; apply some_inj in H; auto. Qed.
+
+Lemma enc_app utf8 s1 s2 b1 b2 :
+  encode_text utf8 s1 = Some b1 -> encode_text utf8 s2 = Some b2 -> encode_text utf8 (s1 ++ s2) = Some (b1 ++ b2).
+Proof.
+  unfold encode_text. destruct utf8; [apply utf8_app|].
+  rewrite forallb_app.
+  destruct (forallb (fun c => N.ltb c 256) s1); [|discriminate].
+  destruct (forallb (fun c => N.ltb c 256) s2); [|discriminate].
+  intros H1 H2. apply some_inj in H1, H2. subst. reflexivity.
+Qed.
+
+Lemma enc_app_inv utf8 s1 s2 b : encode_text utf8 (s1 ++ s2) = Some b ->
+  exists b1 b2, encode_text utf8 s1 = Some b1 /\ encode_text utf8 s2 = Some b2 /\ b = b1 ++ b2.
+Proof.
+  unfold encode_text. destruct utf8; [apply utf8_app_inv|].
+  rewrite forallb_app.
+  destruct (forallb (fun c => N.ltb c 256) s1); [|discriminate].
+  destruct (forallb (fun c => N.ltb c 256) s2); [|discriminate].
+  intros H. apply some_inj in H. subst. eauto.
+Qed.
+
+(* a byte of an encoded text is a character of the text or at least 0x80 *)
+Lemma enc_bytes_of utf8 s b : encode_text utf8 s = Some b -> Forall (fun x => In x s \/ (128 <= x)%N) b.
+Proof.
+  unfold encode_text. destruct utf8; [apply utf8_bytes_of|].
+  destruct (forallb (fun c => N.ltb c 256) s); [|discriminate].
+  intros H. apply some_inj in H. subst b. apply Forall_forall. intros x Hx. left. exact Hx.
+Qed.
+
+Lemma enc_ncl utf8 s b : encode_text utf8 s = Some b -> Forall ncl s -> Forall ncl b.
+Proof.
+  intros H Hs. eapply Forall_imp; [|exact (enc_bytes_of utf8 s b H)].
+  intros x [Hx|Hx]; [|apply high_ncl; exact Hx].
+  rewrite Forall_forall in Hs. apply Hs, Hx.
+Qed.
+
+Lemma enc_last utf8 t z b : encode_text utf8 (t ++ [z]) = Some b ->
+  exists p zb, b = p ++ [zb] /\ (zb = z \/ (128 <= zb)%N).
+Proof.
+  intros H. apply enc_app_inv in H. destruct H as (b1 & b2 & _ & H2 & ->).
+  unfold encode_text in H2. destruct utf8.
+  - cbn [Lib.Utf8.utf8] in H2. destruct (utf8_cp z) as [bc|] eqn:Ec; [|discriminate].
+    apply some_inj in H2. rewrite app_nil_r in H2. subst b2.
+    destruct (utf8_cp_last z bc Ec) as (p & zb & -> & Hz).
+    exists (b1 ++ p), zb. rewrite app_assoc. auto.
+  - destruct (forallb (fun c => N.ltb c 256) [z]); [|discriminate]. apply some_inj in H2. subst b2.
+    exists b1, z. auto.
+Qed.
+
+(* safe_decode in the charset of the encoder gives the text back *)
+Lemma enc_decode utf8 s b : encode_text utf8 s = Some b -> safe_decode utf8 b = s.
+Proof.
+  unfold encode_text, safe_decode. destruct utf8.
+  - intros H. rewrite (utf8_decode_encode s b (length b) H (le_n _)). reflexivity.
+  - destruct (forallb (fun c => N.ltb c 256) s); [|discriminate]. intros H. apply some_inj in H. auto.
 Qed.
 
 (* ---------- partition ---------- *)
@@ -248,26 +336,16 @@ Definition hkc (c : N) : Prop := visc c /\ c <> COLON.
 
 Definition kgood (k : bytes) : Prop := k <> [] /\ Forall hkc k.
 
+(* a header value as text: no line break, and empty or with ends that str.strip() keeps *)
 Definition vgood (v : bytes) : Prop :=
-  Forall prc v /\ (exists a t, v = a :: t /\ a <> SP) /\ (exists z t, v = t ++ [z] /\ z <> SP).
+  Forall ncl v /\
+  (v = [] \/ ((exists a t, v = a :: t /\ is_uspace a = false) /\ (exists z t, v = t ++ [z] /\ is_uspace z = false))).
 
 Definition kvgood (kv : header) : Prop := kgood (fst kv) /\ vgood (snd kv).
 
-Lemma prc_nsp_visc c : prc c -> c <> SP -> visc c.
-Proof. unfold prc, visc, SP. lia. Qed.
-
-Lemma vgood_first v : vgood v -> exists a t, v = a :: t /\ visc a.
-Proof.
-  intros (Hp & (a & t & E & Ha) & _). exists a, t. split; [exact E|].
-  subst v. inversion Hp; subst. apply prc_nsp_visc; assumption.
-Qed.
-
-Lemma vgood_last v : vgood v -> exists z t, v = t ++ [z] /\ visc z.
-Proof.
-  intros (Hp & _ & (z & t & E & Hz)). exists z, t. split; [exact E|].
-  subst v. apply Forall_app in Hp. destruct Hp as [_ Hp]. inversion Hp; subst.
-  apply prc_nsp_visc; assumption.
-Qed.
+(* [kvb] is the header [kv] with its value encoded *)
+Definition encv (utf8 : bool) (kv kvb : header) : Prop :=
+  fst kvb = fst kv /\ encode_text utf8 (snd kv) = Some (snd kvb).
 
 Lemma kgood_first k : kgood k -> exists a t, k = a :: t /\ visc a.
 Proof.
@@ -281,55 +359,102 @@ Proof.
   subst k. apply Forall_app in Hk. destruct Hk as [_ Hk]. inversion Hk as [|? ? Hz ?]; subst. apply Hz.
 Qed.
 
-Lemma kvgood_gl kv : kvgood kv -> gl (render_line kv).
+Lemma kgood_asc k : kgood k -> Forall asc k.
 Proof.
-  destruct kv as [k v]. intros [Hk Hv]. unfold render_line. cbn [fst snd].
+  intros [_ Hk]. eapply Forall_imp; [|exact Hk]. intros x [Hx _]. apply prc_asc, visc_prc, Hx.
+Qed.
+
+Lemma kvgood_gl utf8 kv kvb : kvgood kv -> encv utf8 kv kvb -> gl (render_line kvb).
+Proof.
+  destruct kv as [k v]. destruct kvb as [k' vb]. intros [Hk Hv] [Ek Ev]. cbn [fst snd] in *. subst k'.
+  unfold render_line. cbn [fst snd].
   destruct (kgood_first k Hk) as (a & t & E & Ha). subst k.
   cbn [app gl]. split; [exact Ha|].
   destruct Hk as [_ Hk]. inversion Hk as [|? ? _ Ht]; subst.
   apply Forall_app. split.
-  - eapply Forall_imp; [|exact Ht]. intros x [Hx _]. apply visc_prc, Hx.
-  - constructor; [unfold prc, COLON; lia|]. constructor; [unfold prc, SP; lia|]. apply Hv.
+  - eapply Forall_imp; [|exact Ht]. intros x [Hx _]. apply visc_ncl, Hx.
+  - constructor; [unfold ncl, COLON, CR, LF; split; discriminate|].
+    constructor; [unfold ncl, SP, CR, LF; split; discriminate|].
+    apply (enc_ncl utf8 v vb Ev). apply Hv.
 Qed.
 
-Lemma header_line_good utf8 hs k v : kgood k -> vgood v ->
-  header_line utf8 (Some hs) (render_line (k, v)) = Some (hs ++ [(k, v)]).
+Lemma strip_trail sp s z : s <> [] -> hd_ok sp s -> sp z = true -> strip sp (s ++ [z]) = strip sp s.
 Proof.
-  intros Hk Hv.
-  pose proof (kvgood_gl (k, v) (conj Hk Hv)) as Hgl.
-  unfold render_line in *. cbn [fst snd] in *.
+  intros Hne Hhd Hz. unfold strip.
+  assert (E1 : lstrip sp (s ++ [z]) = s ++ [z]).
+  { apply lstrip_id. destruct s; [congruence|exact Hhd]. }
+  rewrite E1, (lstrip_id sp s Hhd), rev_unit. cbn [lstrip]. rewrite Hz. reflexivity.
+Qed.
+
+Lemma header_line_good utf8 hs k v vb : kgood k -> vgood v -> encode_text utf8 v = Some vb ->
+  header_line utf8 (Some hs) (render_line (k, vb)) = Some (hs ++ [(k, v)]).
+Proof.
+  intros Hk Hv Ev.
+  unfold render_line. cbn [fst snd].
   destruct (kgood_first k Hk) as (a & t & Ek & Ha).
   destruct (kgood_last k Hk) as (zk & tk & Ek' & Hzk).
-  destruct (vgood_first v Hv) as (b & u & Ev & Hb).
-  destruct (vgood_last v Hv) as (z & u' & Ev' & Hz).
-  assert (Es : strip is_bspace (k ++ [COLON; SP] ++ v) = k ++ [COLON; SP] ++ v).
-  { eapply (strip_ends is_bspace _ a (t ++ [COLON; SP] ++ v) z (k ++ [COLON; SP] ++ u')).
-    - rewrite Ek. reflexivity.
-    - rewrite Ev' at 1. rewrite <- !app_assoc. reflexivity.
-    - apply is_bspace_vis, Ha.
-    - apply is_bspace_vis, Hz. }
-  assert (El : exists a' t', k ++ [COLON; SP] ++ v = a' :: t') by (rewrite Ek; cbn [app]; eauto).
-  destruct El as (a' & t' & El).
-  unfold header_line. rewrite Es, El. cbv iota. rewrite <- El.
-  rewrite safe_decode_ascii by (apply gl_pr; exact Hgl).
-  assert (Esp : split_at_first COLON (k ++ [COLON; SP] ++ v) = Some (k, SP :: v)).
-  { apply (saf_app COLON k (SP :: v)). destruct Hk as [_ Hk].
-    eapply Forall_imp; [|exact Hk]. intros x [_ Hx]. exact Hx. }
-  rewrite Esp.
   assert (Ek2 : strip is_uspace k = k).
   { apply (strip_ends is_uspace k a t zk tk Ek Ek'); apply is_uspace_vis; assumption. }
-  assert (Ev2 : strip is_uspace (SP :: v) = v).
-  { rewrite strip_sp_cons by reflexivity.
-    apply (strip_ends is_uspace v b u z u' Ev Ev'); apply is_uspace_vis; assumption. }
-  rewrite Ek2, Ev2. reflexivity.
+  assert (Hnc : Forall (fun x => x <> COLON) k).
+  { destruct Hk as [_ Hk]. eapply Forall_imp; [|exact Hk]. intros x [_ Hx]. exact Hx. }
+  assert (Easc : encode_text utf8 (k ++ [COLON]) = Some (k ++ [COLON])).
+  { apply enc_ascii. apply Forall_app. split; [apply kgood_asc, Hk|].
+    constructor; [unfold asc, COLON; lia|constructor]. }
+  destruct Hv as [Hncl [-> | [(b & u & Ev1 & Hb) (z & u' & Ev' & Hz)]]].
+  - (* the empty value: "name: " is stripped to "name:" *)
+    apply enc_nil in Ev. subst vb.
+    assert (Es : strip is_bspace (k ++ [COLON; SP] ++ []) = k ++ [COLON]).
+    { change (k ++ [COLON; SP] ++ []) with (k ++ [COLON] ++ [SP]). rewrite app_assoc.
+      rewrite strip_trail.
+      - apply (strip_ends is_bspace _ a (t ++ [COLON]) COLON k).
+        + rewrite Ek. reflexivity.
+        + reflexivity.
+        + apply is_bspace_vis, Ha.
+        + reflexivity.
+      - rewrite Ek. discriminate.
+      - rewrite Ek. cbn [app hd_ok]. apply is_bspace_vis, Ha.
+      - reflexivity. }
+    assert (El : exists a' t', k ++ [COLON] = a' :: t') by (rewrite Ek; cbn [app]; eauto).
+    destruct El as (a' & t' & El).
+    unfold header_line. rewrite Es, El. cbv iota. rewrite <- El.
+    rewrite (enc_decode utf8 _ _ Easc).
+    rewrite (saf_app COLON k [] Hnc), Ek2. reflexivity.
+  - destruct (enc_last utf8 u' z vb) as (p & zb & Evb & Hzb); [rewrite <- Ev'; exact Ev|].
+    assert (Hzb' : is_bspace zb = false).
+    { destruct Hzb as [->|Hzb]; [apply is_bspace_uspace, Hz|apply is_bspace_high, Hzb]. }
+    assert (Es : strip is_bspace (k ++ [COLON; SP] ++ vb) = k ++ [COLON; SP] ++ vb).
+    { eapply (strip_ends is_bspace _ a (t ++ [COLON; SP] ++ vb) zb (k ++ [COLON; SP] ++ p)).
+      - rewrite Ek. reflexivity.
+      - rewrite Evb at 1. rewrite <- !app_assoc. reflexivity.
+      - apply is_bspace_vis, Ha.
+      - exact Hzb'. }
+    assert (El : exists a' t', k ++ [COLON; SP] ++ vb = a' :: t') by (rewrite Ek; cbn [app]; eauto).
+    destruct El as (a' & t' & El).
+    unfold header_line. rewrite Es, El. cbv iota. rewrite <- El.
+    assert (Eline : encode_text utf8 (k ++ [COLON; SP] ++ v) = Some (k ++ [COLON; SP] ++ vb)).
+    { change (k ++ [COLON; SP] ++ v) with (k ++ [COLON] ++ [SP] ++ v).
+      change (k ++ [COLON; SP] ++ vb) with (k ++ [COLON] ++ [SP] ++ vb).
+      rewrite !app_assoc. rewrite <- (app_assoc _ [SP] v), <- (app_assoc _ [SP] vb).
+      apply enc_app; [exact Easc|]. apply enc_app; [|exact Ev].
+      apply enc_ascii. constructor; [unfold asc, SP; lia|constructor]. }
+    rewrite (enc_decode utf8 _ _ Eline).
+    assert (Esp : split_at_first COLON (k ++ [COLON; SP] ++ v) = Some (k, SP :: v)).
+    { apply (saf_app COLON k (SP :: v) Hnc). }
+    rewrite Esp.
+    assert (Ev2 : strip is_uspace (SP :: v) = v).
+    { rewrite strip_sp_cons by reflexivity.
+      apply (strip_ends is_uspace v b u z u' Ev1 Ev'); assumption. }
+    rewrite Ek2, Ev2. reflexivity.
 Qed.
 
-Lemma header_lines_good utf8 items : Forall kvgood items -> forall hs,
-  fold_left (header_line utf8) (map render_line items) (Some hs) = Some (hs ++ items).
+Lemma header_lines_good utf8 items itemsb : Forall kvgood items -> Forall2 (encv utf8) items itemsb -> forall hs,
+  fold_left (header_line utf8) (map render_line itemsb) (Some hs) = Some (hs ++ items).
 Proof.
-  induction 1 as [|[k v] items [Hk Hv] Hitems IH]; intros hs; cbn [map fold_left].
+  intros Hg H2. revert Hg.
+  induction H2 as [|[k v] [k' vb] items itemsb [Ek Ev] H2 IH]; intros Hg hs; cbn [map fold_left].
   - rewrite app_nil_r. reflexivity.
-  - cbn [fst snd] in *. rewrite header_line_good by assumption. rewrite IH, <- app_assoc. reflexivity.
+  - inversion Hg as [|? ? [Hk Hv] Hitems]; subst. cbn [fst snd] in *. subst k'.
+    rewrite (header_line_good utf8 hs k v vb Hk Hv Ev). rewrite IH by exact Hitems. rewrite <- app_assoc. reflexivity.
 Qed.
 
 Lemma fm_map items : flat_map (fun kv => CRLF ++ render_line kv) items = fm (map render_line items).
@@ -340,18 +465,23 @@ Lemma block_joined kv items :
   = render_line kv ++ fm (map render_line items).
 Proof. rewrite fm_map. reflexivity. Qed.
 
-Lemma Forall_map_gl items : Forall kvgood items -> Forall gl (map render_line items).
-Proof. induction 1; cbn [map]; constructor; auto using kvgood_gl. Qed.
-
-Lemma header_items_good utf8 kv items : kvgood kv -> Forall kvgood items ->
-  header_items utf8 (render_line kv ++ fm (map render_line items)) = Some (kv :: items).
+Lemma Forall_map_gl utf8 items itemsb :
+  Forall kvgood items -> Forall2 (encv utf8) items itemsb -> Forall gl (map render_line itemsb).
 Proof.
-  intros Hkv Hitems. unfold header_items.
-  pose proof (kvgood_gl kv Hkv) as Hgl. pose proof (Forall_map_gl items Hitems) as Hgls.
+  intros Hg H2. revert Hg. induction H2 as [|kv kvb items itemsb He H2 IH]; intros Hg; cbn [map]; [constructor|].
+  inversion Hg; subst. constructor; [eapply kvgood_gl; eassumption|apply IH; assumption].
+Qed.
+
+Lemma header_items_good utf8 kv kvb items itemsb :
+  kvgood kv -> encv utf8 kv kvb -> Forall kvgood items -> Forall2 (encv utf8) items itemsb ->
+  header_items utf8 (render_line kvb ++ fm (map render_line itemsb)) = Some (kv :: items).
+Proof.
+  intros Hkv He Hitems H2. unfold header_items.
+  pose proof (kvgood_gl utf8 kv kvb Hkv He) as Hgl. pose proof (Forall_map_gl utf8 items itemsb Hitems H2) as Hgls.
   rewrite uc_pr by (apply gl_pr; exact Hgl). rewrite uc_fm by exact Hgls.
   rewrite splitlines_joined by assumption.
-  change (render_line kv :: map render_line items) with (map render_line (kv :: items)).
-  rewrite header_lines_good by (constructor; assumption). reflexivity.
+  change (render_line kvb :: map render_line itemsb) with (map render_line (kvb :: itemsb)).
+  rewrite (header_lines_good utf8 (kv :: items) (kvb :: itemsb)) by (constructor; assumption). reflexivity.
 Qed.
 
 (* ---------- Headers() ---------- *)
@@ -613,6 +743,23 @@ Proof.
   split; [discriminate|]. split; [reflexivity|]. split; apply Forall_ne_compute; reflexivity.
 Qed.
 
+Lemma text_char_facts c : text_char c = true -> ncl c /\ c <> DQUOTE /\ c <> BSLASH.
+Proof.
+  unfold text_char. intros H.
+  apply andb_true_iff in H. destruct H as [H H4].
+  apply andb_true_iff in H. destruct H as [H H3].
+  apply andb_true_iff in H. destruct H as [H1 H2].
+  apply negb_true_iff, N.eqb_neq in H1, H2, H3, H4. unfold ncl. auto.
+Qed.
+
+Lemma tname_ok_facts s : tname_ok s = true -> Forall ncl s /\ nq s /\ nbs s.
+Proof.
+  unfold tname_ok, nq, nbs. intros H. repeat split.
+  - eapply forallb_Forall; [|exact H]. intros x Hx. apply text_char_facts, Hx.
+  - eapply forallb_Forall; [|exact H]. intros x Hx. apply text_char_facts, Hx.
+  - eapply forallb_Forall; [|exact H]. intros x Hx. apply text_char_facts, Hx.
+Qed.
+
 Lemma name_char_facts c : name_char c = true -> prc c /\ c <> DQUOTE /\ c <> BSLASH.
 Proof.
   unfold name_char, prc. intros H.
@@ -651,17 +798,17 @@ Definition cd_params (name : bytes) (filename : option bytes) : list bytes :=
   match filename with Some f => [strip is_uspace (a_file ++ f ++ [DQUOTE])] | None => [] end.
 
 Lemma parseparam_cd name filename :
-  name_ok name = true -> filename_ok filename = true ->
+  tname_ok name = true -> tfilename_ok filename = true ->
   parseparam (S (S (length (cd_value name filename)))) (SEMI :: cd_value name filename)
   = strip is_uspace fd :: cd_params name filename.
 Proof.
   intros Hn Hf. rewrite cdv_shape.
-  destruct (name_ok_facts name Hn) as (_ & Hq & Hb).
+  destruct (tname_ok_facts name Hn) as (_ & Hq & Hb).
   rewrite parseparam_fd.
   rewrite parseparam_seg by (auto using Aok_a_name, Rok_Rf).
   unfold cd_params. f_equal. f_equal.
   destruct filename as [f|]; cbn [Rf].
-  - cbn [filename_ok] in Hf. destruct (name_ok_facts f Hf) as (_ & Hqf & Hbf).
+  - cbn [tfilename_ok] in Hf. destruct (tname_ok_facts f Hf) as (_ & Hqf & Hbf).
     rewrite app_length. cbn [length]. rewrite Nat.add_succ_r.
     rewrite parseparam_seg by (auto using Aok_a_file; left; reflexivity).
     rewrite parseparam_nil. reflexivity.
@@ -729,16 +876,16 @@ Proof.
 Qed.
 
 Lemma parse_header_cd name filename :
-  name_ok name = true -> filename_ok filename = true ->
+  tname_ok name = true -> tfilename_ok filename = true ->
   snd (parse_header (cd_value name filename))
   = (k_name, name) :: match filename with Some f => [(k_filename, f)] | None => [] end.
 Proof.
   intros Hn Hf. unfold parse_header. rewrite parseparam_cd by assumption.
   cbn [snd]. unfold cd_params. cbn [fold_left].
-  destruct (name_ok_facts name Hn) as (_ & _ & Hb).
+  destruct (tname_ok_facts name Hn) as (_ & _ & Hb).
   rewrite param_add_name by exact Hb.
   destruct filename as [f|]; cbn [fold_left].
-  - cbn [filename_ok] in Hf. destruct (name_ok_facts f Hf) as (_ & _ & Hbf).
+  - cbn [tfilename_ok] in Hf. destruct (tname_ok_facts f Hf) as (_ & _ & Hbf).
     rewrite param_add_file by exact Hbf. reflexivity.
   - reflexivity.
 Qed.
@@ -750,29 +897,54 @@ Proof. destruct filename; split; reflexivity. Qed.
 
 (* ---------- the rendered headers are good header pairs ---------- *)
 
-Lemma cdv_vgood name filename :
-  name_ok name = true -> filename_ok filename = true -> vgood (cd_value name filename).
+Lemma forallb_prc s : forallb (fun c => N.leb 32 c && N.leb c 126) s = true -> Forall prc s.
 Proof.
-  intros Hn Hf. destruct (name_ok_facts name Hn) as (Hp & _ & _).
-  assert (Hs1 : Forall prc s_form_data_name).
-  { apply (forallb_Forall (fun c => N.leb 32 c && N.leb c 126)); [|reflexivity].
-    intros x H. apply andb_true_iff in H. destruct H as [H1 H2]. apply N.leb_le in H1, H2. split; assumption. }
-  assert (Hs2 : Forall prc s_filename).
-  { apply (forallb_Forall (fun c => N.leb 32 c && N.leb c 126)); [|reflexivity].
-    intros x H. apply andb_true_iff in H. destruct H as [H1 H2]. apply N.leb_le in H1, H2. split; assumption. }
-  assert (Hdq : prc DQUOTE) by (unfold prc, DQUOTE; lia).
-  split; [|split].
-  - unfold cd_value. apply Forall_app; split; [exact Hs1|]. apply Forall_app; split; [exact Hp|].
-    apply Forall_app; split; [constructor; [exact Hdq|constructor]|].
+  apply forallb_Forall. intros x H. apply andb_true_iff in H. destruct H as [H1 H2].
+  apply N.leb_le in H1, H2. split; assumption.
+Qed.
+
+Lemma Hs1 : Forall prc s_form_data_name.
+Proof. apply forallb_prc. reflexivity. Qed.
+Lemma Hs2 : Forall prc s_filename.
+Proof. apply forallb_prc. reflexivity. Qed.
+
+Lemma ncl_dq : ncl DQUOTE.
+Proof. unfold ncl, DQUOTE, CR, LF. split; discriminate. Qed.
+
+Lemma cdv_vgood name filename :
+  tname_ok name = true -> tfilename_ok filename = true -> vgood (cd_value name filename).
+Proof.
+  intros Hn Hf. destruct (tname_ok_facts name Hn) as (Hp & _ & _).
+  split; [|right; split].
+  - unfold cd_value. apply Forall_app; split; [exact (Forall_imp _ _ _ prc_ncl Hs1)|].
+    apply Forall_app; split; [exact Hp|].
+    apply Forall_app; split; [constructor; [exact ncl_dq|constructor]|].
     destruct filename as [f|]; [|constructor].
-    cbn [filename_ok] in Hf. destruct (name_ok_facts f Hf) as (Hpf & _ & _).
-    apply Forall_app; split; [exact Hs2|]. apply Forall_app; split; [exact Hpf|].
-    constructor; [exact Hdq|constructor].
+    cbn [tfilename_ok] in Hf. destruct (tname_ok_facts f Hf) as (Hpf & _ & _).
+    apply Forall_app; split; [exact (Forall_imp _ _ _ prc_ncl Hs2)|]. apply Forall_app; split; [exact Hpf|].
+    constructor; [exact ncl_dq|constructor].
   - unfold cd_value. change s_form_data_name with (102%N :: skipn 1 s_form_data_name).
-    cbn [app]. eexists _, _. split; [reflexivity|discriminate].
+    cbn [app]. eexists _, _. split; reflexivity.
   - exists DQUOTE. unfold cd_value. destruct filename as [f|].
-    + rewrite !app_assoc. eexists. split; [reflexivity|discriminate].
-    + rewrite app_nil_r, !app_assoc. eexists. split; [reflexivity|discriminate].
+    + rewrite !app_assoc. eexists. split; reflexivity.
+    + rewrite app_nil_r, !app_assoc. eexists. split; reflexivity.
+Qed.
+
+(* the value is rendered from the encoded names = the encoding of the value rendered from the names *)
+Lemma cdv_enc utf8 name filename nb fb :
+  encode_text utf8 name = Some nb -> encode_opt utf8 filename = Some fb ->
+  encode_text utf8 (cd_value name filename) = Some (cd_value nb fb).
+Proof.
+  intros En Ef. unfold cd_value.
+  assert (Edq : encode_text utf8 [DQUOTE] = Some [DQUOTE]).
+  { apply enc_ascii. constructor; [unfold asc, DQUOTE; lia|constructor]. }
+  apply enc_app; [apply enc_ascii, (Forall_imp _ _ _ prc_asc Hs1)|].
+  apply enc_app; [exact En|]. apply enc_app; [exact Edq|].
+  destruct filename as [f|]; cbn [encode_opt] in Ef.
+  - destruct (encode_text utf8 f) as [fbb|] eqn:E; [|discriminate]. apply some_inj in Ef. subst fb.
+    apply enc_app; [apply enc_ascii, (Forall_imp _ _ _ prc_asc Hs2)|].
+    apply enc_app; [exact E|exact Edq].
+  - apply some_inj in Ef. subst fb. apply enc_ascii. constructor.
 Qed.
 
 Lemma cd_kgood : kgood s_content_disposition.
@@ -785,18 +957,24 @@ Proof.
   split; [split; assumption|exact H3].
 Qed.
 
-Lemma hvalue_ok_vgood v : hvalue_ok v = true -> vgood v.
+Lemma no_crlf_ncl v : no_crlf v = true -> Forall ncl v.
 Proof.
-  unfold hvalue_ok. intros H.
+  apply forallb_Forall. intros x H. apply andb_true_iff in H. destruct H as [H1 H2].
+  apply negb_true_iff, N.eqb_neq in H1, H2. split; assumption.
+Qed.
+
+Lemma tvalue_ok_vgood v : tvalue_ok v = true -> vgood v.
+Proof.
+  unfold tvalue_ok. intros H.
   apply andb_true_iff in H. destruct H as [H H3]. apply andb_true_iff in H. destruct H as [H1 H2].
-  split; [|split].
-  - eapply forallb_Forall; [|exact H1]. intros x Hx. unfold hvalue_char in Hx.
-    apply andb_true_iff in Hx. destruct Hx as [Ha Hb]. apply N.leb_le in Ha, Hb. split; assumption.
-  - destruct v as [|a t]; [discriminate|]. exists a, t. split; [reflexivity|].
-    apply negb_true_iff, N.eqb_neq in H2. exact H2.
-  - destruct (rev v) as [|z t] eqn:E; [discriminate|]. exists z, (rev t). split.
-    + rewrite <- (rev_involutive v), E. reflexivity.
-    + apply negb_true_iff, N.eqb_neq in H3. exact H3.
+  split; [apply no_crlf_ncl, H1|].
+  destruct v as [|a t]; [left; reflexivity|right]. split.
+  - exists a, t. split; [reflexivity|]. apply negb_true_iff in H2. exact H2.
+  - destruct (rev (a :: t)) as [|z u] eqn:E.
+    + apply (f_equal (@length N)) in E. rewrite rev_length in E. discriminate.
+    + exists z, (rev u). split.
+      * rewrite <- (rev_involutive (a :: t)), E. reflexivity.
+      * apply negb_true_iff in H3. exact H3.
 Qed.
 
 Lemma hname_ok_kgood k : hname_ok k = true ->
@@ -812,40 +990,111 @@ Proof.
   - apply negb_true_iff in H3. exact H3.
 Qed.
 
-Lemma extra_ok_facts extra : forallb extra_ok extra = true ->
+Lemma textra_ok_facts extra : forallb textra_ok extra = true ->
   Forall kvgood extra /\
   Forall (fun kv => bytes_eqb (lower (fst kv)) k_content_disposition = false) extra.
 Proof.
   intros H. split.
-  - eapply forallb_Forall; [|exact H]. intros kv Hkv. unfold extra_ok in Hkv.
+  - eapply forallb_Forall; [|exact H]. intros kv Hkv. unfold textra_ok in Hkv.
     apply andb_true_iff in Hkv. destruct Hkv as [Hk Hv]. split.
     + apply hname_ok_kgood, Hk.
-    + apply hvalue_ok_vgood, Hv.
-  - eapply forallb_Forall; [|exact H]. intros kv Hkv. unfold extra_ok in Hkv.
+    + apply tvalue_ok_vgood, Hv.
+  - eapply forallb_Forall; [|exact H]. intros kv Hkv. unfold textra_ok in Hkv.
     apply andb_true_iff in Hkv. destruct Hkv as [Hk Hv]. apply hname_ok_kgood, Hk.
+Qed.
+
+Lemma encode_extra_encv utf8 extra : forall eb, encode_extra utf8 extra = Some eb -> Forall2 (encv utf8) extra eb.
+Proof.
+  induction extra as [|kv r IH]; intros eb H; cbn [encode_extra] in H.
+  - apply some_inj in H. subst eb. constructor.
+  - destruct (encode_text utf8 (snd kv)) as [vb|] eqn:Ev; [|discriminate].
+    destruct (encode_extra utf8 r) as [rb|]; [|discriminate]. apply some_inj in H. subst eb.
+    constructor; [split; [reflexivity|exact Ev]|apply IH; reflexivity].
 Qed.
 
 (* ---------- the theorem ---------- *)
 
-Theorem decode_headers_proof : decode_headers_statement.
+Theorem decode_headers_text_proof : decode_headers_text_statement.
 Proof.
-  intros utf8 name filename extra Hn Hf He.
-  destruct (extra_ok_facts extra He) as [Hgood Hother].
+  intros utf8 name filename extra nb fb eb Hn Hf He En Ef Ee.
+  destruct (textra_ok_facts extra He) as [Hgood Hother].
+  pose proof (encode_extra_encv utf8 extra eb Ee) as H2.
   assert (Hcd : kvgood (s_content_disposition, cd_value name filename)).
   { split; [exact cd_kgood|apply cdv_vgood; assumption]. }
-  assert (Eblock : render_headers name filename extra
-                   = render_line (s_content_disposition, cd_value name filename) ++ fm (map render_line extra)).
+  assert (Hcde : encv utf8 (s_content_disposition, cd_value name filename) (s_content_disposition, cd_value nb fb)).
+  { split; [reflexivity|apply cdv_enc; assumption]. }
+  assert (Eblock : render_headers nb fb eb
+                   = render_line (s_content_disposition, cd_value nb fb) ++ fm (map render_line eb)).
   { unfold render_headers. apply block_joined. }
-  assert (Eparse : parse_part utf8 (render_headers name filename extra)
+  assert (Eparse : parse_part utf8 (render_headers nb fb eb)
                    = PEvent (rendered_event name filename extra)).
-  { unfold parse_part, parse_headers. rewrite Eblock, header_items_good by assumption.
+  { unfold parse_part, parse_headers. rewrite Eblock.
+    rewrite (header_items_good utf8 _ _ extra eb Hcd Hcde Hgood H2).
     cbn [option_map]. rewrite hget_cd by exact Hother.
     cbv zeta. rewrite parse_header_cd by assumption.
-    destruct (hget_params name filename) as [E1 E2]. cbv zeta in E1, E2. rewrite E1, E2.
     unfold rendered_event. destruct filename; reflexivity. }
   split; [exact Eparse|].
   unfold hdr_ok. rewrite Eparse.
-  assert (Enb : no_blank (LF :: render_headers name filename extra ++ [CR; LF; CR]) = true).
-  { rewrite Eblock. apply no_blank_joined; [apply kvgood_gl; exact Hcd|apply Forall_map_gl; exact Hgood]. }
+  assert (Enb : no_blank (LF :: render_headers nb fb eb ++ [CR; LF; CR]) = true).
+  { rewrite Eblock. apply no_blank_joined; [eapply kvgood_gl; eassumption|eapply Forall_map_gl; eassumption]. }
   rewrite Enb. reflexivity.
+Qed.
+
+(* ---------- the ASCII instance ---------- *)
+
+Lemma name_char_text c : name_char c = true -> text_char c = true.
+Proof.
+  intros H. destruct (name_char_facts c H) as ([H1 H2] & H3 & H4). unfold text_char.
+  apply N.eqb_neq in H3, H4. rewrite H3, H4.
+  destruct (N.eqb_spec c CR); [unfold CR in *; lia|]. destruct (N.eqb_spec c LF); [unfold LF in *; lia|]. reflexivity.
+Qed.
+
+Lemma name_ok_tname s : name_ok s = true -> tname_ok s = true /\ Forall asc s.
+Proof.
+  unfold name_ok, tname_ok. intros H. split.
+  - rewrite forallb_forall in *. intros x Hx. apply name_char_text, H, Hx.
+  - eapply forallb_Forall; [|exact H]. intros x Hx. apply prc_asc, (name_char_facts x Hx).
+Qed.
+
+Lemma hvalue_ok_facts v : hvalue_ok v = true -> tvalue_ok v = true /\ Forall asc v.
+Proof.
+  unfold hvalue_ok, tvalue_ok. intros H.
+  apply andb_true_iff in H. destruct H as [H H3]. apply andb_true_iff in H. destruct H as [H1 H2].
+  assert (Hp : Forall prc v).
+  { eapply forallb_Forall; [|exact H1]. intros x Hx. unfold hvalue_char in Hx.
+    apply andb_true_iff in Hx. destruct Hx as [Ha Hb]. apply N.leb_le in Ha, Hb. split; assumption. }
+  assert (Hend : forall l, Forall prc l ->
+            match l with c :: _ => negb (N.eqb c SP) | [] => false end = true ->
+            match l with c :: _ => negb (is_uspace c) | [] => true end = true).
+  { intros l Hl Hc. destruct l as [|c r]; [reflexivity|]. inversion Hl; subst.
+    apply negb_true_iff, N.eqb_neq in Hc. apply negb_true_iff, is_uspace_vis.
+    unfold prc, visc, SP in *. lia. }
+  split; [|exact (Forall_imp _ _ _ prc_asc Hp)].
+  rewrite (Hend v Hp H2), (Hend (rev v) (Forall_rev Hp) H3), !andb_true_r.
+  unfold no_crlf. rewrite forallb_forall. intros x Hx. rewrite Forall_forall in Hp.
+  destruct (prc_ncl x (Hp x Hx)) as [Hc Hl]. apply N.eqb_neq in Hc, Hl. rewrite Hc, Hl. reflexivity.
+Qed.
+
+Lemma extra_ok_textra utf8 extra : forallb extra_ok extra = true ->
+  forallb textra_ok extra = true /\ encode_extra utf8 extra = Some extra.
+Proof.
+  induction extra as [|[k v] r IH]; cbn [forallb encode_extra]; intros H; [split; reflexivity|].
+  apply andb_true_iff in H. destruct H as [Hkv Hr]. destruct (IH Hr) as [IH1 IH2].
+  unfold extra_ok in Hkv. apply andb_true_iff in Hkv. destruct Hkv as [Hk Hv]. cbn [fst snd] in *.
+  destruct (hvalue_ok_facts v Hv) as [Hv1 Hv2].
+  split.
+  - rewrite IH1, andb_true_r. unfold textra_ok. cbn [fst snd]. rewrite Hk, Hv1. reflexivity.
+  - rewrite (enc_ascii utf8 v Hv2), IH2. reflexivity.
+Qed.
+
+Theorem decode_headers_proof : decode_headers_statement.
+Proof.
+  intros utf8 name filename extra Hn Hf He.
+  destruct (name_ok_tname name Hn) as [Hn1 Hn2].
+  destruct (extra_ok_textra utf8 extra He) as [He1 He2].
+  apply (decode_headers_text_proof utf8 name filename extra name filename extra); try assumption.
+  - destruct filename as [f|]; [|reflexivity]. apply (name_ok_tname f Hf).
+  - apply enc_ascii, Hn2.
+  - destruct filename as [f|]; [|reflexivity]. cbn [encode_opt filename_ok] in *.
+    destruct (name_ok_tname f Hf) as [_ Hf2]. rewrite (enc_ascii utf8 f Hf2). reflexivity.
 Qed.
